@@ -86,7 +86,7 @@ func runSweeps(tier string, seed int64, langs []int, perPair int) {
 	}
 }
 
-var otherSeps = []string{"\t", "\n", "  ", " ", "　", " ", ",", "-", ""}
+var otherSeps = []string{"\t", "\n", "  ", "\u00a0", "\u3000", "\u2003", "\u2009", "\u202f", "\u0085", "\u2028", ",", "-", ""}
 
 // runMutations: classes of damaged sentences derived from valid ones (C03, C15)
 func runMutations(tier string, seed int64, langs []int, fullSubst bool) {
